@@ -479,6 +479,54 @@ def other_steps_prelim(rng, res):
         shutil.rmtree(root, ignore_errors=True)
 
 
+def stop_products_tree(rng, res):
+    """(viii) The final link holds exactly the products present at stop - recorded the way the one-phase command records
+    them: a product directory that contains a link to another directory (dist/vendor -> ../vendor-1.2), nested
+    directories, a link to a file."""
+    KEY_FORM[0] = "signer"
+    STOP_KW.clear()
+    import in_toto.runlib as rl
+    import in_toto.settings as ist
+    from in_toto.models.metadata import Metadata
+    from harness import tree as T
+    k = rng.choice(W.pool())
+    dsse = rng.random() < 0.5
+    tree = {"m0": ("f", b"material\n"),
+            "dist": ("d", {"app.bin": ("f", b"app\n"), "latest.bin": ("l", "app.bin"), "vendor": ("l", "../vendor-1.2"),
+                           "sub": ("d", {"deep": ("d", {"f.txt": ("f", b"f\n")})})}),
+            "vendor-1.2": ("d", {"LICENSE": ("f", b"lic\n"), "lib": ("d", {"libdep.a": ("f", b"a\n")})})}
+    if rng.random() < 0.5:
+        tree["dist"][1]["docs"] = ("l", "sub/deep")
+    plist = rng.choice([["dist"], ["dist", "m0"], ["."]])
+    root = tempfile.mkdtemp(prefix="verif-c12p-")
+    cwd = os.getcwd()
+    try:
+        os.chdir(root)
+        open("m0", "wb").write(b"material\n")
+        with quiet():
+            rl.in_toto_record_start("st", ["m0"], signer=k.signer, use_dsse=dsse)
+        T.materialise({n_: v for n_, v in tree.items() if n_ != "m0"}, root)
+        try:
+            with quiet():
+                rl.in_toto_record_stop("st", plist, signer=k.signer)
+            pl = Metadata.load("st.%s.link" % k.keyid[:8]).get_payload()
+            got = {"ok": sorted([a, b["sha256"]] for a, b in pl.products.items())}
+        except Exception as e:  # pylint: disable=broad-except
+            got = {"err": type(e).__name__}
+    finally:
+        os.chdir(cwd)
+        shutil.rmtree(root, ignore_errors=True)
+    ref = T.reference_record(tree, plist, list(ist.ARTIFACT_EXCLUDE_PATTERNS), True, False, [])
+    want = {"ok": sorted([a, b] for a, b in ref[1].items())} if ref[0] == "ok" else {"err": ref[0]}
+    case = {"op": "stop_products_tree", "products": plist, "dsse": dsse, "key": k.kind}
+    res.case(dict(case, n_products=len(got.get("ok") or [])), True, got == want, sample_cap=1)
+    res.count("stop_products_tree")
+    if got != want:
+        missing = sorted(set(a for a, _b in want.get("ok", [])) - set(a for a, _b in got.get("ok", [])))
+        res.fail("oracle", case, {"why": "the final link does not hold exactly the products present at stop (as in_toto_run records them: directory "
+                                         "links inside a product directory are followed)", "missing": missing, "impl": got if "err" in got else None})
+
+
 def failing_stop_then_retry(rng, res):
     """(vi) A stop that fails *while the products are being recorded* (two products collapse to one name under the
     left-strip prefixes; a product path that cannot be read), with and without a base path, then - in the same process,
@@ -725,6 +773,8 @@ def shard(seed, idx, n, tier):
         failing_stop_then_retry(rng, res)
     for _ in range(n):
         other_steps_prelim(rng, res)
+    for _ in range(n):
+        stop_products_tree(rng, res)
     return res
 
 
